@@ -89,6 +89,9 @@ Definition GFresh (s : gstate) (cr : N) : Prop :=
 Lemma gring_neq0 p : (gring p =? 0) = false.
 Proof. apply N.eqb_neq. pose proof (gring_range p). lia. Qed.
 
+Lemma g_get_or_init_live p q r : g_get_or_init (mkGRam (gring p) q) r = mkGRam (gring p) q.
+Proof. unfold g_get_or_init. cbn [g_ctr]. rewrite gring_neq0. reflexivity. Qed.
+
 Lemma g_reserve_at_boundary p r :
   exists dl, 999 <= dl <= 1000 /\
     g_reserve (mkGRam (gring p) (gring p)) r =
@@ -118,7 +121,11 @@ Proof.
   destruct s as [ram kv pend]. cbn [gs_kv gs_pend gs_ram] in *. subst kv.
   destruct Hsh as [[Hp [Hram [Hcd HcT]]]|[b [Hp [Hram [Hcd' [Hcb HcT]]]]]]; subst pend ram.
   - (* no reservation pending *)
-    destruct op as [r|ok|]; cbn [g_step gs_pend gs_ram gs_kv] in Hst; cbn [g_cost].
+    destruct op as [r0|r|ok|]; cbn [g_step gs_pend gs_ram gs_kv] in Hst; cbn [g_cost].
+    + rewrite g_get_or_init_live in Hst. inversion Hst; subst s' e; clear Hst.
+      exists M, T. split; [|split; [lia|split; [lia|exact I]]].
+      exists c, d. cbn [gs_kv gs_pend gs_ram]. split; [reflexivity|]. split; [exact HoM|]. split; [exact HMc|].
+      left. repeat split; lia.
     + destruct (N.eq_dec c d) as [->|Hne].
       * destruct (g_reserve_at_boundary d r) as [dl [Hdl Hres]]. rewrite Hres in Hst.
         inversion Hst; subst s' e; clear Hst.
@@ -142,7 +149,11 @@ Proof.
       left. repeat split; lia.
   - (* a reservation is pending *)
     subst d.
-    destruct op as [r|ok|]; cbn [g_step gs_pend gs_ram gs_kv] in Hst; cbn [g_cost].
+    destruct op as [r0|r|ok|]; cbn [g_step gs_pend gs_ram gs_kv] in Hst; cbn [g_cost].
+    + rewrite g_get_or_init_live in Hst. inversion Hst; subst s' e; clear Hst.
+      exists M, T. split; [|split; [lia|split; [lia|exact I]]].
+      exists c, c. cbn [gs_kv gs_pend gs_ram]. split; [reflexivity|]. split; [exact HoM|]. split; [exact HMc|].
+      right. exists b. repeat split; lia.
     + inversion Hst; subst s' e; clear Hst.
       exists M, T. split; [|split; [lia|split; [lia|exact I]]].
       exists c, c. cbn [gs_kv gs_pend gs_ram]. split; [reflexivity|]. split; [exact HoM|]. split; [exact HMc|].
@@ -185,7 +196,12 @@ Proof.
   intros s op cr s' e [Hkv Hsh] _ Hst.
   destruct s as [ram kv pend]. cbn [gs_kv gs_pend gs_ram] in *. subst kv.
   destruct Hsh as [[Hp [Heq Hle]]|[c [b [Hp [Hram [Hcb Hcr]]]]]]; subst pend.
-  - destruct op as [r|ok|]; cbn [g_step gs_pend gs_ram gs_kv] in Hst; cbn [g_cost].
+  - destruct op as [r0|r|ok|]; cbn [g_step gs_pend gs_ram gs_kv] in Hst; cbn [g_cost].
+    + left. destruct (g_seeded_value ram r0 Heq Hle) as [p Hseed]. rewrite Hseed in Hst.
+      inversion Hst; subst s' e; clear Hst.
+      exists cr. split; [|split; [lia|discriminate]].
+      split; [reflexivity|]. left. cbn [gs_pend gs_ram g_ctr g_bnd].
+      pose proof (gring_range p). repeat split; lia.
     + left. destruct (g_seeded_value ram r Heq Hle) as [p Hseed].
       destruct (g_reserve_at_boundary p r) as [dl [Hdl Hres]].
       assert (Hres' : g_reserve ram r = g_reserve (mkGRam (gring p) (gring p)) r).
@@ -201,7 +217,10 @@ Proof.
       exists cr. split; [|split; [lia|discriminate]].
       split; [reflexivity|]. left. cbn. repeat split; unfold G_MASK; lia.
   - subst ram.
-    destruct op as [r|ok|]; cbn [g_step gs_pend gs_ram gs_kv] in Hst; cbn [g_cost].
+    destruct op as [r0|r|ok|]; cbn [g_step gs_pend gs_ram gs_kv] in Hst; cbn [g_cost].
+    + left. rewrite g_get_or_init_live in Hst. inversion Hst; subst s' e; clear Hst.
+      exists cr. split; [|split; [lia|discriminate]].
+      split; [reflexivity|]. right. exists c, b. cbn [gs_pend gs_ram]. repeat split; lia.
     + left. inversion Hst; subst s' e; clear Hst.
       exists cr. split; [|split; [lia|discriminate]].
       split; [reflexivity|]. right. exists c, b. cbn [gs_pend gs_ram]. repeat split; lia.
